@@ -31,6 +31,7 @@ package upstream
 //@   ensures [primaries] forall a string :: u.HTTPUpstream.g_prim[a] ==> cfgPrimary(opt, a)
 //@   ensures [backups]   forall a string :: u.HTTPUpstream.g_back[a] ==> cfgBackup(opt, a)
 //@   ensures [checked]   u.HTTPUpstream.g_checked
+//@   ensures [periodic]  u.HTTPUpstream.g_started
 //@   ensures [option]    u.Option.AcceptEncoding == opt.AcceptEncoding && u.Option.Name == opt.Name
 //@   loop 0: modifies uh.g_prim, uh.g_back
 //@   loop 0: invariant [idx] -1 <= $idx && $idx < len(opt.Servers) && uh != nil && fresh(uh)
